@@ -362,6 +362,7 @@ class Counter:
         self.event_nodes: Dict[str, List[Tuple[Func, ast.AST]]] = {}
         self.track_tables = track_tables
         self.list_ctx: Dict[str, tuple] = {}
+        self.list_base: Dict[str, int] = {}
 
     # ---------------------------------------------------------------- public
     def summary(self, func: Func, tables=(), assume=None, stack=()) -> Emis:
@@ -629,15 +630,25 @@ class Counter:
                 return e.id
             if len(defs) == 1 and defs[0].kind == 'assign' and defs[0].value is not None:
                 v = defs[0].value
-                if (isinstance(v, ast.List) and not v.elts) or match("list()", v):
+                appended = isinstance(v, ast.List) and v.elts and not any(isinstance(x, ast.Starred) for x in v.elts) and any(
+                    isinstance(n, ast.Call) and isinstance(n.func, ast.Attribute) and n.func.attr == 'append'
+                    and isinstance(n.func.value, ast.Name) and n.func.value.id == e.id for n in walk_no_nested(st.func.node))
+                if (isinstance(v, ast.List) and not v.elts) or match("list()", v) or appended:
+                    # `line = [first]` ... `line.append(x)`: the literal's elements plus the appends
+                    self.list_base[e.id] = len(v.elts) if isinstance(v, ast.List) else 0
                     why = self._built_list_problem(e.id, st, at, defs[0].node)
                     if why:
                         self.notes.append(f"{st.func.qual}: list `{e.id}` {why}")
                         return 'expr:' + e.id
                     # loops around the initialisation: the list is a fresh one in each of their rounds, so its length is the
                     # append count of ONE round (see _resolve)
-                    self.list_ctx[e.id] = tuple(self._loop_atom(fo, st) for fo in st.cfg.enclosing_fors(defs[0].node)) \
-                        if defs[0].node is not None else ()
+                    ctx_atoms = []
+                    for hdr in (st.cfg.enclosing_loops(defs[0].node) if defs[0].node is not None else []):
+                        if isinstance(hdr.ast, (ast.For, ast.AsyncFor)):
+                            ctx_atoms.append(self._loop_atom(hdr.ast, st))
+                        elif hdr.ast is not None:
+                            ctx_atoms.append('while:' + src(hdr.ast))
+                    self.list_ctx[e.id] = tuple(ctx_atoms)
                     return '@' + e.id
                 # `fields = DEFAULT if fields is None else fields` / `fields = fields or DEFAULT`: the parameter with its default
                 # filled in (same as the statement form `if fields is None: fields = DEFAULT` below)
@@ -761,6 +772,10 @@ class Counter:
                         kk = rest + tuple(ka)
                         l0, h0 = nxt.get(kk, (0, 0))
                         nxt[kk] = (l0 + lo * alo, h0 + hi * ahi)
+                    nb = self.list_base.get(k[j][1:], 0)
+                    if nb:
+                        l0, h0 = nxt.get(rest, (0, 0))
+                        nxt[rest] = (l0 + lo * nb, h0 + hi * nb)
                 cur = nxt
                 if not changed:
                     break
